@@ -1136,22 +1136,50 @@ def norm(term, depth=0):
     return term
 
 
-def find_try_edge(F, body, call):
-    """Edge node taken when the Result produced by `call` passed a `?`
-    (the Continue edge of the Try::branch applied to it, possibly after
-    map_err/await/into wrappers).  None if the result is not `?`-checked."""
+CHECK_WRAPPERS = ("re:::map_err$", "re:::context$", "re:::with_context$", "re:::map$", "re:::inspect_err$")
+
+
+def _is_result_of(term, body, call):
+    t = strip(term, extra=CHECK_WRAPPERS)
+    return isinstance(t, tuple) and t[0] == "call" and t[3] and t[3][0] == body.id and t[3][1] == call.bb
+
+
+def find_ok_nodes(F, body, call):
+    """CFG nodes that are only reached when the Result/Option produced by `call` was a success:
+    the Continue edge of a `?` applied to it (possibly after map_err/await/into wrappers), the return
+    block of unwrap()/expect() on it, and the Ok/Some arm of a match on it."""
     sl = F.slicer(body.id)
+    out = set()
     for t in body.calls:
-        if t.decl != "std::ops::Try::branch" or t.cleanup or not t.args:
+        if t.cleanup or not t.args:
             continue
-        term = strip(sl.operand(t.args[0], at=t.bb), extra=("re:::map_err$", "re:::context$", "re:::with_context$",
-                                                             "re:::map$"))
-        if isinstance(term, tuple) and term[0] == "call" and term[3] and term[3][0] == body.id and term[3][1] == call.bb:
-            # the switch that follows the branch call
-            edge = _switch_edge_on(body, t.dest, t.target, "Continue")
-            if edge is not None:
-                return edge
-    return None
+        if t.decl == "std::ops::Try::branch":
+            if _is_result_of(sl.operand(t.args[0], at=t.bb), body, call):
+                edge = _switch_edge_on(body, t.dest, t.target, "Continue")
+                if edge is not None:
+                    out.add(edge)
+        elif name_matches(t.decl, ("re:^std::(result::Result::<T, E>|option::Option::<T>)::(unwrap|expect)$",)):
+            if t.target is not None and _is_result_of(sl.operand(t.args[0], at=t.bb), body, call):
+                out.add(t.target)
+    for bb, t in body.switches():
+        if bb not in body.reachable:
+            continue
+        ds = body.discr_source(bb)
+        if not ds or not ds[2]:
+            continue
+        if ds[1] not in ("std::result::Result", "std::option::Option"):
+            continue
+        if _is_result_of(sl.place(ds[0], at=bb), body, call):
+            e = body.variant_edge(bb, "Ok" if ds[1].endswith("Result") else "Some")
+            if e is not None:
+                out.add(e)
+    return out
+
+
+def find_try_edge(F, body, call):
+    """one success node for `call` (see find_ok_nodes) or None"""
+    nodes = find_ok_nodes(F, body, call)
+    return min(nodes) if nodes else None
 
 
 def _switch_edge_on(body, place, start_bb, variant):
@@ -1284,3 +1312,63 @@ def ok_exit_nodes(F, body):
                 else:
                     other.append(bb)
     return ok, err, other
+
+
+def bodies_with(F, root, pats):
+    """bodies of a family that contain a reachable non-cleanup call matching pats"""
+    return [b for b in F.family_bodies(root) if b.calls_to(pats)]
+
+
+def check_order(ctx, rule, root, a_pats, b_pats, checked=True, a_name=None, b_name=None, start=None, weak=False):
+    """T-DOM in family `root` (A and B in the same body).
+    default : every entry->B path passes A (its `?` Continue edge when checked).
+    start=S : only paths that pass a call matching S are constrained (conditional protocol:
+              once S happened, B requires a successful A).
+    weak    : A may be skipped, but B never precedes A, and once A was called B requires A's success.
+    """
+    F = ctx.F
+    a_name = a_name or short(a_pats if isinstance(a_pats, str) else a_pats[0])
+    b_name = b_name or short(b_pats if isinstance(b_pats, str) else b_pats[0])
+    bs = bodies_with(F, root, b_pats)
+    if not ctx.anchor(rule, f"{root}: calls to {b_name}", bs, 1):
+        return False
+    allok = True
+    for b in bs:
+        ctx.fn_seen(b.id)
+        As = b.calls_to(a_pats)
+        Bs = b.calls_to(b_pats)
+        if not ctx.anchor(rule, f"{root}: calls to {a_name} next to {b_name}", As, 1):
+            allok = False
+            continue
+        if checked:
+            doms = set()
+            for a in As:
+                doms |= find_ok_nodes(F, b, a)
+        else:
+            doms = {a.bb for a in As}
+        for c in Bs:
+            if weak:
+                srcs = [a.bb for a in As]
+                back = [a for a in As if a.bb in b.after(c.bb)]
+                p = b.path_avoiding(srcs, [c.bb], doms) if checked else None
+                ok = not back and p is None and bool(doms)
+                why = (f"{b_name} can run before {a_name}" if back else
+                       f"{b_name} reachable after a failed/unchecked {a_name}: {b.show_path(p) if p else ''}")
+            elif start is not None:
+                Ss = b.calls_to(start)
+                if not ctx.anchor(rule, f"{root}: start calls {short(start if isinstance(start, str) else start[0])}", Ss, 1):
+                    allok = False
+                    continue
+                p = b.path_avoiding([x.bb for x in Ss], [c.bb], doms)
+                ok = bool(doms) and p is None
+                why = f"{b_name} reachable after the start call without a successful {a_name}: {b.show_path(p) if p else ''}"
+            else:
+                ok = bool(doms) and b.set_dominated(c.bb, doms)
+                p = None if ok else b.path_avoiding([0], [c.bb], doms)
+                why = (f"{b_name} reachable without {'a successful ' if checked else ''}{a_name}: "
+                       f"{b.show_path(p)[-12:] if p else '(no such call in this body)'}")
+            allok &= ctx.ob(rule, f"{root}|{a_name}<{b_name}", ok,
+                            f"{a_name} ({'?-checked, ' if checked else ''}{len(As)} site(s)) precedes {b_name}"
+                            f"{' whenever it runs' if weak else (' on every path from the start call' if start else ' on every path')}"
+                            if ok else why, where=c.where())
+    return allok
